@@ -31,7 +31,9 @@ fn field_chars() -> &'static [char] {
 }
 
 /// Strings that look special to parsers or spreadsheets.
-const WORDS: [&str; 20] = [
+const WORDS: [&str; 30] = [
+    // pairs that collide under common 32-bit hashes (FNV-1a, CRC32, Java hashCode)
+    "costarring", "liquid", "declinate", "macallums", "altarage", "zinke", "Aa", "BB", "plumless", "buckeroo",
     "NA", "true", "false", "null", "None", "%3B", "%09", "1e5", "-0", "+1", "0x10", "inf", "NaN", "1.0", "00", ".", "-", "+", "\\N", "\\t",
 ];
 
@@ -39,6 +41,11 @@ fn gen_field(w: &World, lo: u64, hi: u64, first_col: bool) -> String {
     let mut s = match w.draw(12) {
         0 => WORDS[w.draw(WORDS.len() as u64) as usize].to_string(),
         1 => string_from(w, field_chars(), lo, hi.max(300)),
+        3 if w.chance(1, 600) => {
+            // a field of a megabyte: beyond every internal buffer
+            w.probe("megabyte_field");
+            std::iter::repeat('m').take(*w.pick(&[1usize << 20, (1 << 20) + 1, 70_000, 65_536])).collect()
+        }
         2 if w.chance(1, 8) => {
             // a field of a boundary length (255, 256, 4096, 8192, ...): csv and BufWriter buffers
             let n = crate::gen::magic_size(w, 14);
@@ -257,7 +264,11 @@ fn attr_chars(d: Dialect) -> &'static [char] {
 
 fn gen_attr_string(w: &World, d: Dialect, is_key: bool) -> String {
     let mut s = match w.draw(14) {
-        0 if !is_key => WORDS[w.draw(WORDS.len() as u64) as usize].to_string(),
+        0 => {
+            let wd = WORDS[w.draw(WORDS.len() as u64) as usize];
+            // words are free of every dialect's delimiters except the ones filtered here
+            if wd.contains(['=', ';', ',', ' ', '\\']) || is_key && wd == "." { "kw".to_string() } else { wd.to_string() }
+        }
         1 => string_from(w, attr_chars(d), 1, 200),
         2 if w.chance(1, 12) => {
             // a key or value of a boundary length (up to 16 KiB + 1): regex, csv and writer buffers
@@ -1027,6 +1038,14 @@ fn damage(w: &W, fmt: Fmt) -> Verdict {
                 w.probe("damage_column_missing");
             }
         }
+        _ if w.chance(1, 3) => {
+            // an empty column inserted in front or in the middle (a doubled tab)
+            let at = w.draw(nf as u64) as usize;
+            fields.insert(at, vec![]);
+            what = format!("line {}: an empty column inserted before column {}", j, at);
+            w.probe("damage_column_added");
+            w.probe("damage_empty_column_inserted");
+        }
         _ => {
             // a non-empty extra column, or just a trailing tab (an empty extra column)
             if w.chance(1, 2) {
@@ -1373,7 +1392,7 @@ pub fn property() -> Property {
         ],
         expected_probes: &[
             "multi_valued_attribute", "key_order_differs_from_insertion", "quoted_csv_field", "csv_field_or_line_split_across_reads",
-            "damage_bad_number", "damage_bad_phase", "damage_phase_in_u8_range", "damage_column_missing", "damage_column_added", "damage_trailing_tab", "damage_bed_fewer_than_three_columns", "eintr_surfaced_by_reader", "many_records_regime", "all_partitions_sweep", "first_column_starts_with_hash", "field_with_tab_or_line_feed", "many_values_record", "damaged_line_follows_comment", "damaged_last_line_without_newline",
+            "damage_bad_number", "damage_bad_phase", "damage_phase_in_u8_range", "damage_column_missing", "damage_column_added", "damage_trailing_tab", "damage_empty_column_inserted", "damage_bed_fewer_than_three_columns", "eintr_surfaced_by_reader", "many_records_regime", "all_partitions_sweep", "first_column_starts_with_hash", "field_with_tab_or_line_feed", "many_values_record", "damaged_line_follows_comment", "damaged_last_line_without_newline",
         ],
         quick_runs: 300_000,
         thorough_runs: 20_000_000,
